@@ -764,3 +764,277 @@ Proof.
         exfalso. apply (SU p); congruence.
     + intros p G. apply MONO. apply SU. exact G.
 Qed.
+
+(* ================================================================= *)
+(* 6. the C12 theorems for the manual API                            *)
+(* ================================================================= *)
+
+(* every element of a history's trace is one call made in a state satisfying the invariant, and that state is
+   itself reachable by the prefix *)
+Lemma run_In ops : forall s os s', inv s -> run_from s ops = (os, Some s') ->
+  forall x ob, In (x, ob) (combine ops os) ->
+  exists pre os1 s1 s2, run_from s pre = (os1, Some s1) /\ inv s1 /\ step s1 x = Ok (s2, ob_out ob).
+Proof.
+  induction ops as [|y t IH]; intros s os s' I E x ob IN; cbn [run_from] in E.
+  - destruct IN.
+  - destruct (step s y) as [[s1 o]| |] eqn:ES; try (inversion E; fail).
+    cbn [fst snd] in E. destruct (run_from s1 t) as [os1 e] eqn:ER. inversion E; subst. clear E.
+    assert (inv s1) as I1.
+    { destruct (step_ok s y I) as (s2 & o2 & E2 & I2 & _). rewrite ES in E2. inversion E2; subst. exact I2. }
+    cbn [combine] in IN. destruct IN as [Q|IN].
+    + inversion Q; subst. exists [], [], s, s1. rewrite ob_out_mk_obs. cbn [run_from]. auto.
+    + destruct (IH s1 os1 s' I1 ER x ob IN) as (pre & osp & sa & sb & E1 & Ia & E2).
+      exists (y :: pre), (mk_obs s s1 o :: osp), sa, sb. cbn [run_from]. rewrite ES. cbn [fst snd]. rewrite E1. auto.
+Qed.
+
+(* (heap) in every reachable state the array is a binary min-heap on the time point: _scheduled[0] is a minimum *)
+Theorem heap_invariant s : reachable s ->
+  heap_ok (sched s) /\ forall t rest e, sched s = t :: rest -> In e (sched s) -> e_tp t <= e_tp e.
+Proof.
+  intros R. pose proof (reachable_inv s R) as I. split; [apply I|].
+  intros t rest e E IN. rewrite E in IN. apply (heap_top_min_in t rest e); [rewrite <- E; apply I|exact IN].
+Qed.
+
+(* (no crash) no history reaches an out-of-bounds access or runs out of fuel; one observation per call *)
+Theorem no_crash ops : exists os s, run_from st0 ops = (os, Some s) /\ length os = length ops.
+Proof. destruct (run_from_ok ops st0 inv_st0) as (os & s & E & _ & L). eauto. Qed.
+
+(* (refinement) every call in a reachable state returns and is a transition of the multiset specification *)
+Theorem refines_multiset s x : reachable s ->
+  exists s' o, step s x = Ok (s', o) /\ reachable s' /\
+               (alive s = true -> spec_step (pending (sched s)) x o (pending (sched s'))) /\
+               (alive s = false -> s' = s /\ o = rejected).
+Proof.
+  intros R. pose proof (reachable_inv s R) as I.
+  destruct (step_ok s x I) as (s' & o & E & I' & FE & SP & DEAD).
+  exists s', o. split; [exact E|]. split; [|auto].
+  destruct R as (ops & os & ER). exists (ops ++ [x]), (os ++ [mk_obs s s' o]).
+  clear - ER E. revert os ER. generalize st0.
+  induction ops as [|y t IH]; intros s0 os ER; cbn [run_from app] in *.
+  - inversion ER; subst. rewrite E. reflexivity.
+  - destruct (step s0 y) as [[s1 o1]| |]; try (inversion ER; fail). cbn [fst snd] in *.
+    destruct (run_from s1 t) as [os1 e] eqn:E1. inversion ER; subst.
+    rewrite (IH s1 os1 E1). reflexivity.
+Qed.
+
+(* an expiry event only comes from get_expired(now), is due, and is a minimum of the pending multiset *)
+Lemma expiry_step s x s' o : inv s -> step s x = Ok (s', o) ->
+  forall t now, In (t, ByExpiry now) (o_evs o) ->
+  x = OExpired now /\ e_tp t <= now /\ o_evs o = [(t, ByExpiry now)] /\
+  (forall u, In u (pending (sched s)) -> e_tp t <= e_tp u) /\
+  Permutation (pending (sched s)) (t :: pending (sched s')).
+Proof.
+  intros I E t now IE.
+  destruct (step_ok s x I) as (s2 & o2 & E2 & I2 & FE & SP & DEAD).
+  rewrite E in E2. inversion E2; subst s2 o2. clear E2.
+  destruct (alive s) eqn:A.
+  2:{ destruct (DEAD eq_refl) as (_ & ->). destruct IE. }
+  specialize (SP eq_refl).
+  assert (forall id h, (forall n, h <> ByExpiry n) -> rm_spec (pending (sched s)) id h o (pending (sched s')) -> False) as RM.
+  { intros id h NH [(t0 & -> & _)|(-> & _)]; cbn [o_evs] in IE; [|destruct IE].
+    destruct IE as [Q|[]]. inversion Q; subst. apply (NH now). reflexivity. }
+  destruct x as [pid id tp|pid id tp|n|id|id|id c| |]; cbn [spec_step] in SP.
+  1,2: destruct SP as [[-> _]|[-> _]]; destruct IE.
+  - destruct SP as [(t0 & -> & IT & DUE & MIN & P)|[(tp & -> & _)|(-> & _)]]; cbn [o_evs] in IE; try (destruct IE; fail).
+    destruct IE as [Q|[]]. inversion Q; subst. auto.
+  - exfalso. eapply RM; [|exact SP]. discriminate.
+  - exfalso. eapply RM; [|exact SP]. discriminate.
+  - exfalso. eapply RM; [|exact SP]. discriminate.
+  - destruct SP as (-> & _). cbn [o_evs] in IE. apply in_map_iff in IE. destruct IE as (e & Q & _). discriminate.
+  - destruct SP as (-> & _). destruct IE.
+Qed.
+
+(* (never early) whatever the history, a sleep completed by expiry was completed by a get_expired(now) call with
+   now >= its time point *)
+Theorem never_early ops os sf : run_from st0 ops = (os, Some sf) ->
+  forall x ob t now, In (x, ob) (combine ops os) -> In (t, ByExpiry now) (o_evs (ob_out ob)) ->
+  x = OExpired now /\ e_tp t <= now.
+Proof.
+  intros E x ob t now IN IE.
+  destruct (run_In ops st0 os sf inv_st0 E x ob IN) as (pre & os1 & s1 & s2 & _ & I1 & ES).
+  destruct (expiry_step s1 x s2 (ob_out ob) I1 ES t now IE) as (A & B & _). auto.
+Qed.
+
+(* (deadline order, pairwise) when `a` is completed by expiry, every sleep `b` that was scheduled before and is not
+   yet completed has a time point >= a's: nobody is overtaken *)
+Theorem deadline_order pre os1 s1 x s2 o a now b :
+  run_from st0 pre = (os1, Some s1) -> step s1 x = Ok (s2, o) -> In (a, ByExpiry now) (o_evs o) ->
+  In b (sched_run pre os1) -> ~ In b (completed_run os1) -> e_tp a <= e_tp b.
+Proof.
+  intros E ES IE IB NB.
+  pose proof (run_inv pre st0 os1 s1 inv_st0 E) as I1.
+  destruct (expiry_step s1 x s2 o I1 ES a now IE) as (_ & _ & _ & MIN & _).
+  apply MIN.
+  pose proof (run_conserves pre st0 os1 s1 inv_st0 E) as C. cbn [st0 sched pending filter] in C.
+  rewrite app_nil_r in C. apply (Permutation_in _ C) in IB. apply in_app_or in IB. destruct IB; [contradiction|assumption].
+Qed.
+
+(* time points completed by expiry, in completion order *)
+Definition expiry_tps (os : list obs) : list Z :=
+  flat_map (fun ev => match snd ev with ByExpiry _ => [e_tp (fst ev)] | _ => [] end) (events_run os).
+
+Definition is_sched (x : op) : bool := match x with OSchedule _ _ _ | OSleep _ _ _ => true | _ => false end.
+
+Lemma nosched_sub s x s' o : inv s -> is_sched x = false -> step s x = Ok (s', o) ->
+  forall u, In u (pending (sched s')) -> In u (pending (sched s)).
+Proof.
+  intros I NS E u IU.
+  destruct (step_ok s x I) as (s2 & o2 & E2 & I2 & FE & SP & DEAD).
+  rewrite E in E2. inversion E2; subst s2 o2. clear E2.
+  destruct (alive s) eqn:A.
+  2:{ destruct (DEAD eq_refl) as (-> & _). exact IU. }
+  specialize (SP eq_refl).
+  assert (forall id h, rm_spec (pending (sched s)) id h o (pending (sched s')) -> In u (pending (sched s))) as RM.
+  { intros id h [(t0 & _ & _ & _ & P)|(_ & _ & P)]; apply (Permutation_in _ (Permutation_sym P)); [right|]; exact IU. }
+  destruct x as [pid id tp|pid id tp|n|id|id|id c| |]; cbn [spec_step is_sched] in SP, NS; try discriminate; eauto.
+  - destruct SP as [(t0 & _ & _ & _ & _ & P)|[(tp & _ & _ & _ & _ & P)|(_ & _ & E1)]].
+    + apply (Permutation_in _ (Permutation_sym P)). right. exact IU.
+    + apply (Permutation_in _ (Permutation_sym P)). exact IU.
+    + rewrite E1 in IU. destruct IU.
+  - destruct SP as (_ & E1). rewrite E1 in IU. destruct IU.
+  - destruct SP as (_ & E1). rewrite E1 in IU. exact IU.
+Qed.
+
+Lemma nosched_run ops : forall s os s', inv s -> forallb (fun x => negb (is_sched x)) ops = true ->
+  run_from s ops = (os, Some s') ->
+  StronglySorted Z.le (expiry_tps os) /\
+  (forall tp, In tp (expiry_tps os) -> exists u, In u (pending (sched s)) /\ e_tp u = tp).
+Proof.
+  induction ops as [|x t IH]; intros s os s' I NS E; cbn [run_from] in E.
+  - inversion E; subst. split; [constructor|intros tp []].
+  - destruct (step s x) as [[s1 o]| |] eqn:ES; try (inversion E; fail).
+    cbn [fst snd] in E. destruct (run_from s1 t) as [os1 e] eqn:ER. inversion E; subst. clear E.
+    cbn [forallb] in NS. apply andb_true_iff in NS. destruct NS as [NX NT]. apply negb_true_iff in NX.
+    assert (inv s1) as I1.
+    { destruct (step_ok s x I) as (s2 & o2 & E2 & I2 & _). rewrite ES in E2. inversion E2; subst. exact I2. }
+    destruct (IH s1 os1 s' I1 NT ER) as (SS & FROM).
+    pose proof (nosched_sub s x s1 o I NX ES) as SUB.
+    unfold expiry_tps in *. rewrite events_run_cons, ob_out_mk_obs, flat_map_app.
+    set (hd := flat_map (fun ev => match snd ev with ByExpiry _ => [e_tp (fst ev)] | _ => [] end) (o_evs o)).
+    assert (hd = [] \/ exists a now, hd = [e_tp a] /\ In (a, ByExpiry now) (o_evs o)) as HD.
+    { destruct (existsb (fun ev => match snd ev with ByExpiry _ => true | _ => false end) (o_evs o)) eqn:EX.
+      - right. apply existsb_exists in EX. destruct EX as ([a h] & IE & Q). cbn [snd] in Q.
+        destruct h as [now| | |]; try discriminate. exists a, now. split; [|exact IE].
+        destruct (expiry_step s x s1 o I ES a now IE) as (_ & _ & EV & _). unfold hd. rewrite EV. reflexivity.
+      - left. unfold hd. clear - EX. induction (o_evs o) as [|ev evs IHe]; [reflexivity|].
+        cbn [existsb flat_map] in *. apply orb_false_iff in EX. destruct EX as [E1 E2]. rewrite (IHe E2).
+        destruct (snd ev); try discriminate; reflexivity. }
+    destruct HD as [->|(a & now & -> & IE)]; cbn [app].
+    + split; [exact SS|]. intros tp IT. destruct (FROM tp IT) as (u & IU & EU). exists u. auto.
+    + destruct (expiry_step s x s1 o I ES a now IE) as (_ & _ & _ & MIN & P).
+      split.
+      * constructor; [exact SS|]. apply Forall_forall. intros tp IT.
+        destruct (FROM tp IT) as (u & IU & <-). apply MIN. apply SUB. exact IU.
+      * intros tp [<-|IT].
+        -- exists a. split; [|reflexivity]. apply (Permutation_in _ (Permutation_sym P)). left. reflexivity.
+        -- destruct (FROM tp IT) as (u & IU & EU). exists u. auto.
+Qed.
+
+(* (deadline order, sequence) over any stretch of a history in which nothing new is scheduled — whatever
+   get_expired / remove / cancel / destructor calls it contains, with any clock readings — the sleeps completed by
+   expiry come out sorted by time point *)
+Theorem deadline_sorted s ops os s' : reachable s -> forallb (fun x => negb (is_sched x)) ops = true ->
+  run_from s ops = (os, Some s') -> StronglySorted Z.le (expiry_tps os).
+Proof. intros R NS E. apply (nosched_run ops s os s' (reachable_inv s R) NS E). Qed.
+
+(* (each once) promise ids are distinct; scheduled = completed ⊎ still pending; the final state of every completed
+   future is the one its (single) completion event dictates; pending futures are pending *)
+Theorem each_once ops os sf : run_from st0 ops = (os, Some sf) ->
+  NoDup (ppids (sched_run ops os)) /\
+  Permutation (sched_run ops os) (completed_run os ++ pending (sched sf)) /\
+  (forall t h p, In (t, h) (events_run os) -> e_p t = Some p -> get (futs sf) p = Some (stat_of h)) /\
+  (forall e p, In e (pending (sched sf)) -> e_p e = Some p -> get (futs sf) p = Some FPending) /\
+  (alive sf = false -> Permutation (sched_run ops os) (completed_run os)).
+Proof.
+  intros E. pose proof (run_inv ops st0 os sf inv_st0 E) as IF.
+  pose proof (run_conserves ops st0 os sf inv_st0 E) as C. cbn [st0 sched pending filter] in C. rewrite app_nil_r in C.
+  split; [apply (run_fresh ops st0 os sf inv_st0 E)|]. split; [exact C|]. split; [|split].
+  - apply (run_event_status ops st0 os sf inv_st0 E).
+  - intros e p IE EP. apply (inv_pend sf IF). rewrite <- ppids_pending. apply In_ppids. eauto.
+  - intros D. rewrite (inv_dead sf IF D) in C. cbn [pending filter] in C. rewrite app_nil_r in C. exact C.
+Qed.
+
+(* exactly once, spelled out on promise ids: after the destructor every accepted promise id occurs exactly once
+   among the completion events *)
+Corollary each_exactly_once ops os sf : run_from st0 ops = (os, Some sf) -> alive sf = false ->
+  forall p, In p (ppids (sched_run ops os)) -> count_occ Nat.eq_dec (ppids (completed_run os)) p = 1%nat.
+Proof.
+  intros E D p IP. destruct (each_once ops os sf E) as (ND & _ & _ & _ & P). specialize (P D).
+  apply ppids_perm in P.
+  pose proof (proj1 (Permutation_count_occ Nat.eq_dec _ _) P p) as Q. rewrite <- Q.
+  apply (proj1 (NoDup_count_occ' Nat.eq_dec _) ND p IP).
+Qed.
+
+(* (cancel exact) remove / cancel(id) / cancel(id, e) in a reachable live state *)
+Definition cancel_exact_spec (s : st) (id : Z) (h : how) (s' : st) (o : out) : Prop :=
+  (o_r1 o = 1 /\
+   exists t p, o_evs o = [(t, h)] /\ In t (pending (sched s)) /\ e_id t = id /\ e_p t = Some p /\
+               Permutation (pending (sched s)) (t :: pending (sched s')) /\
+               get (futs s) p = Some FPending /\ get (futs s') p = Some (stat_of h) /\
+               (forall q, q <> p -> get (futs s') q = get (futs s) q))
+  \/
+  (o_r1 o = 0 /\ o_evs o = [] /\ (forall u, In u (pending (sched s)) -> e_id u <> id) /\
+   Permutation (pending (sched s)) (pending (sched s')) /\ futs s' = futs s).
+
+Lemma cancel_exact_gen s id h : reachable s -> alive s = true ->
+  exists s' o, do_remove s id h = Ok (s', o) /\ cancel_exact_spec s id h s' o /\
+               (o_r1 o = 0 <-> forall u, In u (pending (sched s)) -> e_id u <> id).
+Proof.
+  intros R A. pose proof (reachable_inv s R) as I.
+  destruct (do_remove_ok s id h I A) as (s' & o & E & I' & A' & SP & FE).
+  exists s', o. split; [exact E|].
+  destruct SP as [(t & -> & IT & EI & P)|(-> & NO & P)]; cbn [o_evs fold_left o_r1] in *.
+  - assert (live t = true) as LT by (apply pending_In in IT; apply IT).
+    destruct (proj1 (live_some t) LT) as [p EP].
+    split.
+    + left. split; [reflexivity|]. exists t, p. repeat split; auto.
+      * apply (inv_pend s I). rewrite <- ppids_pending. apply In_ppids. eauto.
+      * rewrite FE, (complete_live _ _ _ _ EP). apply get_put_same.
+      * intros q Q. rewrite FE, (complete_live _ _ _ _ EP). apply get_put_other. congruence.
+    + split; [discriminate|]. intros NO. exfalso. apply (NO t IT EI).
+  - split.
+    + right. auto.
+    + split; auto.
+Qed.
+
+Theorem cancel_exact s id c : reachable s -> alive s = true ->
+  exists s' o, step s (OCancelE id c) = Ok (s', o) /\ cancel_exact_spec s id (ByCancel c) s' o /\
+               (o_r1 o = 0 <-> forall u, In u (pending (sched s)) -> e_id u <> id).
+Proof. intros R A. unfold step. rewrite A. cbn [negb]. apply cancel_exact_gen; assumption. Qed.
+
+Theorem cancel_default_exact s id : reachable s -> alive s = true ->
+  exists s' o, step s (OCancel id) = Ok (s', o) /\ cancel_exact_spec s id (ByCancel 0) s' o /\
+               (o_r1 o = 0 <-> forall u, In u (pending (sched s)) -> e_id u <> id).
+Proof. intros R A. unfold step. rewrite A. cbn [negb]. apply cancel_exact_gen; assumption. Qed.
+
+Theorem remove_exact s id : reachable s -> alive s = true ->
+  exists s' o, step s (ORemove id) = Ok (s', o) /\ cancel_exact_spec s id ByRemove s' o /\
+               (o_r1 o = 0 <-> forall u, In u (pending (sched s)) -> e_id u <> id).
+Proof. intros R A. unfold step. rewrite A. cbn [negb]. apply cancel_exact_gen; assumption. Qed.
+
+(* (destroy cancels) the destructor completes exactly the pending sleeps, each as "cancelled" (future ready without a
+   value), touches no other future, and leaves nothing pending; the dead scheduler rejects every later call *)
+Theorem destroy_cancels s : reachable s -> alive s = true ->
+  exists s' o, step s ODestroy = Ok (s', o) /\
+    sched s' = [] /\ alive s' = false /\
+    o_evs o = map (fun e => (e, ByDestroy)) (pending (sched s)) /\
+    (forall p, get (futs s) p = Some FPending -> get (futs s') p = Some FDropped) /\
+    (forall p v, get (futs s) p = Some v -> v <> FPending -> get (futs s') p = Some v) /\
+    (forall p, get (futs s') p <> Some FPending) /\
+    (forall x, step s' x = Ok (s', rejected)).
+Proof.
+  intros R A. pose proof (reachable_inv s R) as I.
+  destruct (step_ok s ODestroy I) as (s' & o & E & I' & FE & SP & _).
+  specialize (SP A). cbn [spec_step futs_effect] in SP, FE. destruct SP as (-> & EP).
+  exists s', (mkOut 0 0 0 (map (fun e => (e, ByDestroy)) (pending (sched s)))). split; [exact E|].
+  assert (sched s' = [] /\ alive s' = false) as (S0 & A0).
+  { unfold step in E. rewrite A in E. cbn [negb] in E. inversion E; subst. auto. }
+  split; [exact S0|]. split; [exact A0|]. split; [reflexivity|].
+  cbn [o_evs] in FE.
+  split; [|split; [|split]].
+  - intros p G. rewrite FE, fold_complete_destroy. rewrite ppids_pending.
+    destruct (in_dec Nat.eq_dec p (ppids (sched s))) as [J|J]; [reflexivity|]. exfalso. apply J. apply (inv_pend s I). exact G.
+  - intros p v G NP. apply (step_stable s ODestroy s' _ I E p v G NP).
+  - intros p G. apply (inv_pend s' I') in G. rewrite S0 in G. destruct G.
+  - intros x. unfold step. rewrite A0. reflexivity.
+Qed.
